@@ -521,7 +521,7 @@ pub fn scenarios(quick: bool, rng: &mut Rng) -> Vec<Scn> {
 pub fn run(opts: &Opts) -> i32 {
     let rep = Report::new(
         opts,
-        "timed_scenarios",
+        "exploration",
         "real time, coarse grid: keep-alive from the client's value (1.5x), handshake override, keep-alive 0, live peers with whole and \
          fragmented packets and idle/busy handlers, traffic stopping at every phase, frame read rate (stall, fast, slow, fast-then-stall, cap), \
          connect timeout (nothing / partial CONNECT, plain and combined server, CONNECT completing in time), client PINGREQ cadence \
